@@ -227,6 +227,16 @@ struct Compiled {
     counts: std::collections::BTreeMap<String, usize>,
     errors: Vec<String>,
     non_warning_lints: Vec<String>,
+    /// C09: first location defect of a comment part / comment lint (VERIF_DOC_SPANS = off | on | only)
+    span_fail: Option<Value>,
+}
+
+thread_local! {
+    static LAST_SPAN_FAIL: std::cell::RefCell<Option<Value>> = const { std::cell::RefCell::new(None) };
+}
+
+fn span_mode() -> String {
+    std::env::var("VERIF_DOC_SPANS").unwrap_or_else(|_| "off".into())
 }
 
 fn compile(texts: &[String]) -> Compiled {
@@ -238,7 +248,9 @@ fn compile(texts: &[String]) -> Compiled {
     // levels as a user sees them: through into_updated with default options (done on a second compilation, since
     // into_diagnostics consumes the state)
     let state2 = slicec::compile_from_strings(&refs, None);
+    let mut lints = Vec::new();
     for d in state2.into_diagnostics(&Default::default()) {
+        lints.push((d.code().to_owned(), d.span().cloned()));
         if d.level() == DiagnosticLevel::Error {
             errors.push(format!("{} {}", d.code(), d.message()));
         } else {
@@ -248,7 +260,16 @@ fn compile(texts: &[String]) -> Compiled {
             }
         }
     }
-    Compiled { state, counts, errors, non_warning_lints }
+    let span_fail = if span_mode() == "off" {
+        None
+    } else {
+        crate::comment_spans::check(texts, &state.ast, &lints).map(|mut f| {
+            f["spans"] = json!(true);
+            f
+        })
+    };
+    LAST_SPAN_FAIL.with(|l| *l.borrow_mut() = span_fail.clone());
+    Compiled { state, counts, errors, non_warning_lints, span_fail }
 }
 
 fn count(c: &Compiled, code: &str) -> usize {
@@ -389,6 +410,22 @@ fn link_texts(case: &Value) -> Vec<String> {
 
 impl Family for DocComments {
     fn run(&mut self, case: &Value) -> Outcome {
+        LAST_SPAN_FAIL.with(|l| *l.borrow_mut() = None);
+        let mut o = self.run_inner(case);
+        // C09 runs the families for the locations only: what the comments say is C16's business
+        let mode = span_mode();
+        if mode == "only" {
+            o.fail = None;
+        }
+        if mode != "off" && o.fail.is_none() {
+            o.fail = LAST_SPAN_FAIL.with(|l| l.borrow_mut().take());
+        }
+        o
+    }
+}
+
+impl DocComments {
+    fn run_inner(&mut self, case: &Value) -> Outcome {
         let fam = case["fam"].as_str().unwrap_or("");
         match fam {
             "dedent" => {
